@@ -191,6 +191,17 @@ impl Family for C04Family {
         // now and then the store changes while the prompt is open: another authenticator on the same
         // shared store registers a newer credential for the RP (what a sync would do)
         let contended = !cell.make && r.chance(1, 6);
+        // one CTAP-level assertion cell run in six: the store has an item type of its own and some of the
+        // matching entries do not convert into a passkey (a vault entry of another kind)
+        let vault = !contended && !cell.client_level && !cell.make && cell.present && actor.ops.is_empty() && r.chance(1, 6);
+        if vault {
+            c.wrap = Wrap::Bare;
+            c.unconvertible = match r.below(3) {
+                0 => vec![1],
+                1 => vec![2],
+                _ => vec![1, 2],
+            };
+        }
         if contended {
             op.yields = vec![r.range(3, 9) as u8; 8];
         }
@@ -226,7 +237,7 @@ impl Family for C04Family {
         let rec = run_and_measure(c, stats);
         let mut j = Judge::new("C04", scn, &rec);
         stats.cells_total = CELLS;
-        for p in ["two_matching_credentials", "consent_missing_twin_compared", "success_with_unrequested_verification", "success_without_any_requirement", "denied_by_user", "validation_error", "uv_requested_without_capability", "store_changed_during_prompt", "verification_capability_changed_before_ceremony"] {
+        for p in ["two_matching_credentials", "consent_missing_twin_compared", "success_with_unrequested_verification", "success_without_any_requirement", "denied_by_user", "validation_error", "uv_requested_without_capability", "store_changed_during_prompt", "verification_capability_changed_before_ceremony", "unconvertible_store_item_listed"] {
             stats.declare_probe(p);
         }
         if rec.panic.is_some() || rec.outcome != Outcome2::Done {
@@ -251,6 +262,9 @@ impl Family for C04Family {
             .unwrap_or(c.actors[0].verification);
         if verification_now != c.actors[0].verification {
             stats.probe("verification_capability_changed_before_ceremony");
+        }
+        if rec.fired.get("unconvertible_item_returned").copied().unwrap_or(0) > 0 {
+            stats.probe("unconvertible_store_item_listed");
         }
         if c.prelude.iter().filter(|p| p.rp_id == RP).count() > 1 {
             stats.probe("two_matching_credentials");
